@@ -767,7 +767,7 @@ partial def scenario (d : DCfg) : Tk String := do
   else if kind == "oskip" then do let t ← nxN; let b ← nxB; pure (scOskip d t b)
   else if kind == "md" then scMd d
   else if kind.startsWith "fa=" then scenario d
-  else if kind.startsWith "pipe=" then scenario d   -- a stream that cannot seek reads the same
+  else if kind.startsWith "pipe=" then scenario { d with cfg := { d.cfg with pipe := true } }
   else if kind == "rt" then scRt d 0
   else if kind == "rtw" then scRt d 1
   else if kind == "rtd" then scRt d 2
